@@ -104,7 +104,7 @@ Hypothesis osort_perm : forall i l, Permutation l (osort i l).
 Lemma mark_pv_same best l : Forall2 same_move (mark_pv best l) l.
 Proof.
   unfold mark_pv. destruct best as [bb|]; [|apply Forall2_same_refl].
-  induction l as [|m l IH]; [constructor|]. destruct (opt_mv2_eqb (last_move m) (last_move bb)).
+  induction l as [|m l IH]; [constructor|]. destruct (is_pv_of bb m).
   - constructor; [apply same_move_with_oh|apply Forall2_same_refl].
   - constructor; [apply same_move_refl|exact IH].
 Qed.
